@@ -64,6 +64,8 @@ pub fn classify_err(msg: &str) -> String {
         "invalid-context".into()
     } else if msg.starts_with("Topic cannot contain null byte") {
         "nul-in-topic".into()
+    } else if msg.starts_with("Frame does not survive serialization") {
+        "undecodable".into()
     } else {
         format!("other:{}", msg)
     }
